@@ -38,7 +38,7 @@ func (fc *FuncContract) trackedCallees() []string {
 }
 
 // returnsiteChecks emits the `returnsite` assertions at a return statement of the function under contract.
-func (e *Exec) returnsiteChecks(st *State, s *ast.ReturnStmt) {
+func (e *Exec) returnsiteChecks(st *State, s *ast.ReturnStmt, vals []Val) {
 	if e.suppressSites() || e.inContract > 0 || st.dead {
 		return
 	}
@@ -50,7 +50,15 @@ func (e *Exec) returnsiteChecks(st *State, s *ast.ReturnStmt) {
 		if c.LoopKey != "return" {
 			continue
 		}
-		env := e.loopEnv(st, s.Pos(), nil)
+		// the values being returned: result (one result) or result0, result1, ...
+		extra := map[string]Val{}
+		if len(vals) == 1 {
+			extra["result"] = vals[0]
+		}
+		for i, v := range vals {
+			extra[fmt.Sprintf("result%d", i)] = v
+		}
+		env := e.loopEnv(st, s.Pos(), extra)
 		g := e.evContract(st, c.Expr, env)
 		name := fmt.Sprintf("%s#returnsite:%s@%s", e.fnName, c.Name, e.relLine(s.Pos()))
 		o := e.oblige(st, name, "returnsite", c.Props, g, s.Pos())
